@@ -9,6 +9,7 @@ import Cbor.Gen.Unicode
 import Cbor.Gen.HeaderSize
 import Cbor.Gen.Accessors
 import Cbor.Gen.Accessors2
+import Cbor.Gen.Serializers
 /-! Driver operations over the *generated* definitions (validates the translator against the compiled C). -/
 namespace Drv
 open Gen
@@ -237,8 +238,60 @@ def opACCH (fn : String) (r : ItemRec) (v : Nat) (hb : Array UInt8) : Option Str
   | "cbor_bytestring_set_handle" => accOut r (cbor_bytestring_set_handle r hb (UInt64.ofNat v)) (cbor_bytestring_set_handle.ok r hb (UInt64.ofNat v))
   | _ => none
 
+/-! ### ACC, leaf serializers: `ACC <fn> <kind> <value> <n>` — same protocol as harness/gen_ops.c (op_accser). -/
+
+/-- the `n` low-order bytes of `v`, least significant first (host byte order of the payload the constructors write) -/
+def leBytesN (n v : Nat) : Array UInt8 := ((List.range n).map fun i => UInt8.ofNat (v / 256 ^ i)).toArray
+
+/-- the record of the item the harness builds through the constructors: refcount 1, the selected union member, the payload;
+the fields of the other members hold junk (`accItem`) -/
+def serItem (kind : String) (v : Nat) (bytes : Array UInt8) : Option ItemRec :=
+  match kind with
+  | "u8" => some (accItem 0 0 0 0 1 (leBytesN 1 v))
+  | "u16" => some (accItem 0 1 0 0 1 (leBytesN 2 v))
+  | "u32" => some (accItem 0 2 0 0 1 (leBytesN 4 v))
+  | "u64" => some (accItem 0 3 0 0 1 (leBytesN 8 v))
+  | "n8" => some (accItem 1 0 0 0 1 (leBytesN 1 v))
+  | "n16" => some (accItem 1 1 0 0 1 (leBytesN 2 v))
+  | "n32" => some (accItem 1 2 0 0 1 (leBytesN 4 v))
+  | "n64" => some (accItem 1 3 0 0 1 (leBytesN 8 v))
+  | "ctrl" => some (accItem 7 0 v 0 1 #[])
+  | "f2" => some (accItem 7 1 0 0 1 (leBytesN 4 v))
+  | "f4" => some (accItem 7 2 0 0 1 (leBytesN 4 v))
+  | "f8" => some (accItem 7 3 0 0 1 (leBytesN 8 v))
+  | "bs" => some (accItem 2 bytes.size 0 0 1 bytes)
+  | "ts" => some (accItem 3 bytes.size 0xDEAD 0 1 bytes)
+  | _ => none
+
+/-- what a generated leaf serializer returns: (bytes written, buffer), or just a size; `Untranslated` keeps the driver building when
+the translator had to refuse a function -/
+class SerOut (α : Type) where
+  fmt : α → String
+instance : SerOut (UInt64 × Array UInt8) := ⟨fun r => s!"{r.1} {toHex r.2}"⟩
+instance : SerOut UInt64 := ⟨fun r => s!"{r} -"⟩
+instance : SerOut Untranslated := ⟨fun u => s!"untranslated({u.why})"⟩
+
+def serOut {α : Type} [SerOut α] (x : α) (ok : Bool) : Option String := some (if ok then s!"{SerOut.fmt x} ok=1" else "ok=0")
+
+def opACCS (fn : String) (r : ItemRec) (n : Nat) : Option String :=
+  let buf : Array UInt8 := Array.replicate n 0xAA
+  let sz := UInt64.ofNat n
+  match fn with
+  | "cbor_serialize_uint" => serOut (cbor_serialize_uint r buf 0 sz) (cbor_serialize_uint.ok r buf 0 sz)
+  | "cbor_serialize_negint" => serOut (cbor_serialize_negint r buf 0 sz) (cbor_serialize_negint.ok r buf 0 sz)
+  | "cbor_serialize_float_ctrl" => serOut (cbor_serialize_float_ctrl r buf 0 sz) (cbor_serialize_float_ctrl.ok r buf 0 sz)
+  | "cbor_serialize_bytestring" => serOut (cbor_serialize_bytestring r buf 0 sz) (cbor_serialize_bytestring.ok r buf 0 sz)
+  | "cbor_serialize_string" => serOut (cbor_serialize_string r buf 0 sz) (cbor_serialize_string.ok r buf 0 sz)
+  | "cbor_serialized_size" => serOut (cbor_serialized_size r) (cbor_serialized_size.ok r)
+  | _ => none
+
 def genOp (ws : List String) : Option String :=
   match ws with
+  | ["ACC", fn, kind, v, n] => do
+      let isStr := kind == "bs" || kind == "ts"
+      let bytes ← if isStr then parseHex v else some #[]
+      let val ← if isStr then some 0 else v.toNat?
+      opACCS fn (← serItem kind val bytes) (← n.toNat?)
   | ["ACC", fn, ty, a, b, c, rc, h, v] => do
       opACC fn (accItem (← ty.toNat?) (← a.toNat?) (← b.toNat?) (← c.toNat?) (← rc.toNat?) (← parseHex h)) (← v.toNat?)
   | ["ACC", fn, ty, a, b, c, rc, h, v, hb] => do
